@@ -31,11 +31,16 @@ CLAIMS = {
         "conservation (after collection a zone holds stream i exactly once if it lies on the path from the root to i's leaf and "
         "not at all otherwise: invariant of the builder + induction over the depth with a counting argument), "
         "root_holds_all_once, shared_only_along_a_path (no sharing between siblings). The invariant proof is what validates the "
-        "second fix: commit (label nodes are created before any generated leaf). NOT modelled: label text splitting/stripping and "
-        "the (zone, name) sort (done by the harness with the same key), the user-tree path, duties, utility copies - decided by "
+        "second fix: commit (label nodes are created before any generated leaf). With a user zone tree (model of "
+        "_rewrite_stream_zones_from_tree: label resolution full path / below the root / unique suffix, child-naming loop): "
+        "tree_rewrite_total, tree_streams_in_leaves (every stream whose label names a node ends in a zone without sub-zones - its "
+        "own node or one generated below it - so it cannot be lost when zones rebuild their collections: the invariant that "
+        "validates the third fix: commit), tree_conservation. NOT modelled: label text splitting/stripping and "
+        "the (zone, name) sort (done by the harness with the same key), duties, utility copies - decided by "
         "the oracle on prepare_problem: 600+ random label sets per run x with/without user tree; every zone's multiset of "
         "streams vs the streams labelled into it (independent label resolver), parent = union of children, independent utility "
-        "objects per zone. Correspondence: zone of every stream, set of tree nodes and content of every zone, 390+ cases per run.",
+        "objects per zone. Correspondence: zone of every stream, set of tree nodes and content of every zone, on all 600+ cases "
+        "per run (both modes).",
    technique="Lean 4 proof (builder invariant by induction over the streams + counting induction over tree depth) + correspondence testing + multiset oracle on prepare_problem",
    design="§6 C10"),
  "C11": dict(
